@@ -77,6 +77,7 @@ def showRej : Rej → String
   | .cpBeneficiary => "cp-beneficiary" | .nonce => "nonce" | .cpNonce => "cp-nonce" | .extraSigners => "extra-signers"
   | .cpSignerlist => "cp-signerlist" | .cpMismatch => "cp-mismatch" | .extraInfo => "extrainfo"
   | .genesisHeight => "genesis-height"
+  | .toosoon => "toosoon"
 
 def showOut : Out → String
   | .ok => "ok" | .skipDup => "skip:dup" | .skipNoParent => "skip:noparent" | .reject r => "reject:" ++ showRej r
@@ -130,6 +131,37 @@ def routerOf (name : String) (period : Nat) : Option Router :=
 def parseTable (s : String) : Option (Array Addr) :=
   ((s.splitOn ",").mapM fun a => (Hex.ofHex a).bind fun b => if b.length = 20 then some b else none).map List.toArray
 
+/-- one `hdr` op of family posa; `record` is the op text remembered for the label -/
+def hdrPosa (d : DSt) (toks record : List String) : DSt × String :=
+  match toks with
+  | ["hdr", id, parent, num, cb, sealTok, diff, extra, time, gl, gu, flags, basefee] =>
+    match d.router, id.toNat?, parent.toNat?, num.toNat?, parseCb d cb, diff.toNat?, parseExtra d extra with
+    | some R, some id, some parent, some num, some cb, some diff, some (extra, sealLen) =>
+      match parseSeal d sealTok sealLen, time.toNat?, gl.toNat?, gu.toNat?, parseFlags flags,
+          (if basefee == "-" then some none else basefee.toNat?.map some) with
+      | some signer, some time, some gl, some gu, some (mixZero, uncleOk), some baseFee =>
+        if !checkDescr d id record then (d, "bad-op")
+        else
+          let h : Hdr := ⟨id, parent, num, cb, signer, diff, extra, time, gl, gu, mixZero, uncleOk, baseFee, .drop⟩
+          let (st', o) := syncHeader R d.st h
+          let d' := { d with st := st', descr := (id, record) :: d.descr, ids := id :: d.ids, maxNum := max d.maxNum num }
+          if o == .panic then (d', "panic") else (d', showOut o ++ " " ++ canonLine st' d'.maxNum)
+      | _, _, _, _, _, _ => (d, "bad-op")
+    | _, _, _, _, _, _, _ => (d, "bad-op")
+  | _ => (d, "bad-op")
+
+/-- `twin <id> <orig> <seal>`: the hdr descriptor of `orig` with a new label and another seal -/
+def twinToks (descr : List (Nat × List String)) (id orig sealTok : String) : Option (List String) :=
+  match orig.toNat? with
+  | none => none
+  | some o =>
+    match descr.find? (·.1 == o) with
+    | some (_, "hdr" :: _ :: rest) =>
+      match rest with
+      | parent :: num :: cb :: _ :: more => some ("hdr" :: id :: parent :: num :: cb :: sealTok :: more)
+      | _ => none
+    | _ => none
+
 def stepPosa (d : DSt) (toks : List String) : DSt × String :=
   match toks with
   | ["router", name, _cid, period, table] =>
@@ -149,20 +181,11 @@ def stepPosa (d : DSt) (toks : List String) : DSt × String :=
         let d' := { d with st := st', descr := (id, toks) :: d.descr, ids := id :: d.ids, maxNum := max d.maxNum num }
         if o == .panic then (d', "panic") else (d', showOut o ++ " " ++ canonLine st' d'.maxNum)
     | _, _, _, _, _, _, _, _, _ => (d, "bad-op")
-  | ["hdr", id, parent, num, cb, sealTok, diff, extra, time, gl, gu, flags, basefee] =>
-    match d.router, id.toNat?, parent.toNat?, num.toNat?, parseCb d cb, diff.toNat?, parseExtra d extra with
-    | some R, some id, some parent, some num, some cb, some diff, some (extra, sealLen) =>
-      match parseSeal d sealTok sealLen, time.toNat?, gl.toNat?, gu.toNat?, parseFlags flags,
-          (if basefee == "-" then some none else basefee.toNat?.map some) with
-      | some signer, some time, some gl, some gu, some (mixZero, uncleOk), some baseFee =>
-        if !checkDescr d id toks then (d, "bad-op")
-        else
-          let h : Hdr := ⟨id, parent, num, cb, signer, diff, extra, time, gl, gu, mixZero, uncleOk, baseFee, .drop⟩
-          let (st', o) := syncHeader R d.st h
-          let d' := { d with st := st', descr := (id, toks) :: d.descr, ids := id :: d.ids, maxNum := max d.maxNum num }
-          if o == .panic then (d', "panic") else (d', showOut o ++ " " ++ canonLine st' d'.maxNum)
-      | _, _, _, _, _, _ => (d, "bad-op")
-    | _, _, _, _, _, _, _ => (d, "bad-op")
+  | "hdr" :: _ => if toks.length == 13 then hdrPosa d toks toks else (d, "bad-op")
+  | ["twin", id, orig, sealTok] =>
+    match twinToks d.descr id orig sealTok with
+    | some t => if t.length == 13 then hdrPosa d t toks else (d, "bad-op")
+    | none => (d, "bad-op")
   | ["junk"] => if d.router.isSome then (d, "reject:json") else (d, "bad-op")
   | ["state"] => if d.router.isSome then (d, showState d) else (d, "bad-op")
   | _ => (d, "bad-op")
@@ -191,6 +214,25 @@ def parseFlagsMsc (s : String) : Option (Bool × Bool × Nonce) :=
     else if f == "auth" then some (acc.1, acc.2.1, .auth) else if f == "badnonce" then some (acc.1, acc.2.1, .other)
     else none) (true, true, .drop)
 
+def hdrMsc (d : MSt) (toks record : List String) : MSt × String :=
+  match toks with
+  | ["hdr", id, parent, num, cb, sealTok, diff, extra, time, flags] =>
+    match d.cfg, id.toNat?, parent.toNat?, num.toNat?, parseCb d.asD cb, diff.toNat?, parseExtra d.asD extra with
+    | some C, some id, some parent, some num, some cb, some diff, some (extra, sealLen) =>
+      match parseSeal d.asD sealTok sealLen, time.toNat?, parseFlagsMsc flags with
+      | some signer, some time, some (mixZero, uncleOk, nonce) =>
+        if !checkDescr d.asD id record then (d, "bad-op")
+        else
+          let h : Hdr := { id := id, parent := parent, number := num, coinbase := cb, signer := signer, difficulty := diff, extra := extra,
+                           time := time, gasLimit := 30000000, gasUsed := 0, mixZero := mixZero, uncleOk := uncleOk, baseFee := none,
+                           nonce := nonce }
+          let (st', o) := Msc.syncHeader C d.st h
+          let d' := { d with st := st', descr := (id, record) :: d.descr, ids := id :: d.ids, maxNum := max d.maxNum num }
+          if o == .panic then (d', "panic") else (d', showOutMsc o ++ " " ++ canonLine st' d'.maxNum)
+      | _, _, _ => (d, "bad-op")
+    | _, _, _, _, _, _, _ => (d, "bad-op")
+  | _ => (d, "bad-op")
+
 def stepMsc (d : MSt) (toks : List String) : MSt × String :=
   match toks with
   | ["router", "msc", epoch, period, table] =>
@@ -211,27 +253,88 @@ def stepMsc (d : MSt) (toks : List String) : MSt × String :=
           (d', showOutMsc o ++ " " ++ canonLine st' d'.maxNum)
       | none => (d, "bad-op")
     | _, _, _, _, _, _, _ => (d, "bad-op")
-  | ["hdr", id, parent, num, cb, sealTok, diff, extra, time, flags] =>
-    match d.cfg, id.toNat?, parent.toNat?, num.toNat?, parseCb d.asD cb, diff.toNat?, parseExtra d.asD extra with
-    | some C, some id, some parent, some num, some cb, some diff, some (extra, sealLen) =>
-      match parseSeal d.asD sealTok sealLen, time.toNat?, parseFlagsMsc flags with
-      | some signer, some time, some (mixZero, uncleOk, nonce) =>
+  | "hdr" :: _ => if toks.length == 10 then hdrMsc d toks toks else (d, "bad-op")
+  | ["twin", id, orig, sealTok] =>
+    match twinToks d.descr id orig sealTok with
+    | some t => if t.length == 10 then hdrMsc d t toks else (d, "bad-op")
+    | none => (d, "bad-op")
+  | ["state"] => if d.cfg.isSome then (d, showState d.asD) else (d, "bad-op")
+  | _ => (d, "bad-op")
+
+/-! ## family bor -/
+
+structure BSt where
+  cfg : Option Bor.Cfg
+  addrs : Array Addr
+  st : St
+  descr : List (Nat × List String)
+  ids : List Nat
+  maxNum : Nat
+
+def BSt.init : BSt := ⟨none, #[], St.empty, [], [], 0⟩
+def BSt.asD (m : BSt) : DSt := ⟨none, m.addrs, m.st, m.descr, m.ids, m.maxNum⟩
+
+def hdrBor (d : BSt) (toks record : List String) : BSt × String :=
+  match toks with
+  | ["hdr", id, parent, num, sealTok, diff, extra, time, flags] =>
+    match d.cfg, id.toNat?, parent.toNat?, num.toNat?, diff.toNat?, parseExtra d.asD extra with
+    | some C, some id, some parent, some num, some diff, some (extra, sealLen) =>
+      match parseSeal d.asD sealTok sealLen, time.toNat?, parseFlags flags with
+      | some signer, some time, some (mixZero, uncleOk) =>
+        if !checkDescr d.asD id record then (d, "bad-op")
+        else
+          let h : Hdr := { id := id, parent := parent, number := num, coinbase := Msc.zeroAddr, signer := signer, difficulty := diff,
+                           extra := extra, time := time, gasLimit := 30000000, gasUsed := 0, mixZero := mixZero, uncleOk := uncleOk,
+                           baseFee := none }
+          let (st', o) := Bor.syncHeader C d.st h
+          let d' := { d with st := st', descr := (id, record) :: d.descr, ids := id :: d.ids, maxNum := max d.maxNum num }
+          (d', showOut o ++ " " ++ canonLine st' d'.maxNum)
+      | _, _, _ => (d, "bad-op")
+    | _, _, _, _, _, _ => (d, "bad-op")
+  | _ => (d, "bad-op")
+
+def twinToksBor (descr : List (Nat × List String)) (id orig sealTok : String) : Option (List String) :=
+  match orig.toNat? with
+  | none => none
+  | some o =>
+    match descr.find? (·.1 == o) with
+    | some (_, ["hdr", _, parent, num, _, diff, extra, time, flags]) => some ["hdr", id, parent, num, sealTok, diff, extra, time, flags]
+    | _ => none
+
+def stepBor (d : BSt) (toks : List String) : BSt × String :=
+  match toks with
+  | ["router", "bor", period, _pdelay, backup, table] =>
+    match d.cfg, period.toNat?, backup.toNat?, parseTable table with
+    | none, some per, some b, some tab => ({ d with cfg := some ⟨per, b⟩, addrs := tab }, "ok")
+    | _, _, _, _ => (d, "bad-op")
+  | ["genesis", id, num, vals, _powers, _k, prop, time, diff] =>
+    match d.cfg, id.toNat?, num.toNat?, parseIdx vals, prop.toNat?, time.toNat?, diff.toNat? with
+    | some _, some id, some num, some vals, some prop, some time, some diff =>
+      match vals.mapM (addrOf d.asD), addrOf d.asD prop with
+      | some as, some pa =>
         if !checkDescr d.asD id toks then (d, "bad-op")
         else
-          let h : Hdr := { id := id, parent := parent, number := num, coinbase := cb, signer := signer, difficulty := diff, extra := extra,
-                           time := time, gasLimit := 30000000, gasUsed := 0, mixZero := mixZero, uncleOk := uncleOk, baseFee := none,
-                           nonce := nonce }
-          let (st', o) := Msc.syncHeader C d.st h
+          let sorted := as.foldl (fun acc a => Msc.insertSigner a acc) []
+          let g : Hdr := { id := id, parent := 0, number := num, coinbase := Msc.zeroAddr, signer := none, difficulty := diff,
+                           extra := List.replicate 97 0, time := time, gasLimit := 30000000, gasUsed := 0, mixZero := true,
+                           uncleOk := true, baseFee := none }
+          let (st', o) := Bor.syncGenesis d.st g sorted (Msc.indexOf pa sorted)
           let d' := { d with st := st', descr := (id, toks) :: d.descr, ids := id :: d.ids, maxNum := max d.maxNum num }
-          if o == .panic then (d', "panic") else (d', showOutMsc o ++ " " ++ canonLine st' d'.maxNum)
-      | _, _, _ => (d, "bad-op")
+          (d', showOut o ++ " " ++ canonLine st' d'.maxNum)
+      | _, _ => (d, "bad-op")
     | _, _, _, _, _, _, _ => (d, "bad-op")
+  | "hdr" :: _ => hdrBor d toks toks
+  | ["twin", id, orig, sealTok] =>
+    match twinToksBor d.descr id orig sealTok with
+    | some t => hdrBor d t toks
+    | none => (d, "bad-op")
   | ["state"] => if d.cfg.isSome then (d, showState d.asD) else (d, "bad-op")
   | _ => (d, "bad-op")
 
 def main (family : String) : IO Unit :=
   if family == "posa" then Proto.run DSt.init stepPosa
   else if family == "posamsc" then Proto.run MSt.init stepMsc
+  else if family == "bor" then Proto.run BSt.init stepBor
   else IO.eprintln s!"drv_lc: family {family} is not implemented"
 
 end Poly.Model.LCPosaDrv
